@@ -382,7 +382,7 @@ PROPS['C02'] = dict(
 )
 # C04: the receive-path mode joins the packet-half mode of the existing entry
 def is_recv_line(inp):
-    return inp.split(' ', 1)[0] in ('recv', 'tcpsock', 'probe', 'sockerr', 'recvseq', 'tcpseq')
+    return inp.split(' ', 1)[0] in ('recv', 'tcpsock', 'probe', 'sockerr', 'recvseq', 'tcpseq', 'recv2')
 
 
 _c04_pkt = PROPS['C04']
@@ -582,4 +582,15 @@ PROPS['C18'] = dict(
     compare=lambda inp, a, b: compare_c16(inp, a, b) if inp.startswith('c16') else _c18['compare'](inp, a, b),
     nontrivial=lambda inp, o: c16_nontrivial(inp, o) if inp.startswith('c16') else _c18['nontrivial'](inp, o),
     rule=_c18['rule'] + ' || the requested level: mode c16 (command line / file / default layering through the real parsers), oracle on tui-privacy-max-ttl incl. the level 0',
+)
+
+
+# ---- C08: "max round duration plus ONE read timeout" rests on Network::recv_probe waiting once and reading one datagram per
+# call: the recv / recv2 lines of mode recv count the waits and reads of the real Channel::recv_probe
+_c08 = PROPS['C08']
+PROPS['C08'] = dict(
+    _c08, modes=_c08['modes'] + [('hcore', 'recv')],
+    compare=lambda inp, a, b: compare_recv(inp, a, b) if is_recv_line(inp) else _c08['compare'](inp, a, b),
+    nontrivial=lambda inp, o: (inp.startswith('recv2 ') or recv_decoded(inp, o)) if is_recv_line(inp) else _c08['nontrivial'](inp, o),
+    rule=_c08['rule'] + ' || one receive call = one wait: mode recv counts is_readable / recv_from calls of the real Channel::recv_probe per call, incl. an unrelated ICMP datagram queued in front of a genuine response (recv2 lines)',
 )
